@@ -548,6 +548,9 @@ func (v *Voter) processVoteMsg(ev VoteMsgEvent, status MsgReceivedStatus) (error
 		Votes:      vote.Votes,
 	}
 	err = v.verifySortitionFn(pubKey, data, lbType)
+	if err == errStaleSortition {
+		return nil, false
+	}
 	if err != nil {
 		logging.Error("verifyPriority msgPriorityProposal failed", "err", err)
 		return err, true
